@@ -118,7 +118,8 @@ def sexpOfFrontErr (e : FrontErr) : Sexp := .list [.sym "error", .sym (reprStr e
 
 def compileSClauses (cs : List SClause) : Sexp :=
   let prog := compileProgram (groupClauses cs)
-  if tooLarge prog then sexpOfFrontErr .tooLarge
+  if programCrashes (groupClauses cs) then sexpOfFrontErr .crash
+  else if tooLarge prog then sexpOfFrontErr .tooLarge
   else .list (.sym "ok" :: prog.map sexpOfPStmt)
 
 def handle : Sexp → Sexp
